@@ -935,7 +935,11 @@ class Dict(dict, base.Symbolic, pg_typing.CustomTyping):
               value = self.sym_inferred(key, default=value)
             if pg_typing.MISSING_VALUE == value:
               continue
-            if hide_default_values and base.eq(value, field.default_value):
+            # NOTE: only a key that the schema names can come back with its
+            # default when it is left out.
+            if (hide_default_values
+                and field.key.is_const
+                and base.eq(value, field.default_value)):
               continue
             json_repr[key] = base.to_json(
                 value,
@@ -1043,7 +1047,9 @@ class Dict(dict, base.Symbolic, pg_typing.CustomTyping):
             if pg_typing.MISSING_VALUE == v:
               if hide_missing_values:
                 continue
-            elif hide_default_values and base.eq(v, field.default_value):
+            elif (hide_default_values
+                  and field.key.is_const
+                  and base.eq(v, field.default_value)):
               continue
             field_list.append((field, key, v))
     else:
